@@ -22,12 +22,12 @@ def vt(cfg):
     return _VT[k]
 
 
-def run(data, base, q, handler):
+def run(data, base, q, handler, devs=None):
     cfg = dict(base)
     cfg["quitonerror"] = q
     cfg["handler"] = handler
     del LOGCAP.records[:]
-    r = run_reader(data, cfg)
+    r = run_reader(data, cfg, stream=streams.DevStream(data, devs) if devs else None)
     r.logrecs = list(LOGCAP.records)
     return r
 
@@ -36,14 +36,14 @@ class Slots:
     pass
 
 
-def judge(data, base, seq=None):
+def judge(data, base, seq=None, devs=None):
     out = []
-    r_ign = run(data, base, 0, False)
-    r_ignh = run(data, base, 0, True)
-    r_log = run(data, base, 1, True)
-    r_lognh = run(data, base, 1, False)
-    r_raise = run(data, base, 2, True)
-    r_raisenh = run(data, base, 2, False)
+    r_ign = run(data, base, 0, False, devs)
+    r_ignh = run(data, base, 0, True, devs)
+    r_log = run(data, base, 1, True, devs)
+    r_lognh = run(data, base, 1, False, devs)
+    r_raise = run(data, base, 2, True, devs)
+    r_raisenh = run(data, base, 2, False, devs)
     n = 6
     for name, r in (("ignore", r_ign), ("ignore+h", r_ignh), ("log", r_log), ("log-nohandler", r_lognh)):
         if r.raised is not None:
@@ -65,7 +65,7 @@ def judge(data, base, seq=None):
     if r_log.logrecs:
         out.append(("handler_and_logger_both_used", f"{r_log.logrecs[:2]}"))
     # by construction (boundary-preserving sequences): one handler call per rejected token, in order
-    if seq is not None and all(TOKENS[t][1] != "frag" for t in seq):
+    if seq is not None and not devs and all(TOKENS[t][1] != "frag" for t in seq):
         table = vt(base)
         exp_events = []
         for t in seq:
@@ -107,12 +107,30 @@ def judge(data, base, seq=None):
 def replay_case(case):
     data = bytes.fromhex(case["stream"])
     seq = tuple(case["tokens"]) if case.get("tokens") else None
-    return judge(data, case["base"], seq)[0]
+    devs = {int(k): v for k, v in case["devs"].items()} if case.get("devs") else None
+    out = judge(data, case["base"], seq, devs)[0]
+    return [(k + "|short_read", d) for k, d in out] if devs else out
 
 
 def eval_block(block, acc):
     if block[0] == "bytes":
         it = ((d, None) for d in streams.iter_block(tuple(block[1]) if block[1][0] == "short" else ("pre", block[1][1], block[1][2])))
+    elif block[0] == "short":
+        # one deviation: the i-th stream call is answered short (1 or 2 bytes), for every i
+        _, first = block
+        for seq in [(first,)] + [(first, t) for t in CLEAN_ALPHABET]:
+            data = streams.seq_bytes(seq)
+            for base in BASES[:2]:
+                ncalls = run(data, base, 0, False).calls
+                for i in range(ncalls):
+                    for sl in (1, 2):
+                        out, n, r_log = judge(data, base, seq, {i: sl})
+                        acc.evaluations += n
+                        acc.transitions += n
+                        acc.outcomes[("short-read", len(r_log.items) > 0, min(len(r_log.errors), 3))] += 1
+                        for key, detail in out:
+                            acc.violation(key + "|short_read", {"stream": data.hex(), "tokens": list(seq), "base": base, "devs": {str(i): sl}}, detail)
+        return
     elif block[0] == "long":
         it = ((streams.seq_bytes(s), s) for s in streams.long_seqs(streams.LONG_NEIGHBOURS))
     else:
@@ -141,12 +159,13 @@ def run_tier(tier, t0):
     blocks += [("tokens", None, 0, "clean")] + [("tokens", f, k, "clean") for f in CLEAN_ALPHABET]
     blocks += [("tokens", f, kf, "all") for f in ALPHABET]
     blocks.append(("long",))
+    blocks += [("short", f) for f in streams.FRAME_TOKENS]
     acc = engine.sweep(blocks, eval_block)
     engine.finish(
         PROP, tier, acc, t0, replay_case,
         rule=(
             f"every byte string of length<={L}; every sequence of <= {k} frame/noise tokens (by-construction handler-event oracle) and of <= {kf} "
-            f"tokens incl. fragments (differential only) x quitonerror(3) x handler present/absent x {len(BASES)} base configurations. "
+            f"tokens incl. fragments (differential only) x quitonerror(3) x handler present/absent; plus, for every sequence of <= 2 tokens starting with a frame, every single short read (the i-th stream call answered with 1 or 2 bytes although more data follows) x {len(BASES)} base configurations. "
             "distinct_nontrivial = distinct (items delivered?, handler calls capped at 3) classes"
         ),
         assumptions=[
